@@ -11,6 +11,7 @@ pub mod c16;
 pub mod c17;
 pub mod c18;
 pub mod c19;
+pub mod c20;
 pub mod lang;
 
 pub struct Case {
@@ -73,6 +74,7 @@ pub fn generate(prop: &str, tier: &str, g: &mut Gen) {
         "C17" => c17::generate(g, thorough),
         "C18" => c18::generate(g, thorough),
         "C19" => c19::generate(g, thorough),
+        "C20" => c20::generate(g, thorough),
         "C02" => c02::generate(g, thorough),
         "C03" => lang::generate_c03(g, thorough),
         "C04" => c04::generate(g, thorough),
